@@ -3,6 +3,11 @@
    script  input    (0 nw cap ((outcome gated) ...) (op ...))
                     op = (0) Execute a fresh task on a new goroutine | (1 t) open the gate of task t
                        | (2) call Shutdown on a new goroutine | (3 t ...) open several gates at once
+                       | (4) Execute, held by the harness between its state check and the queue send
+                       | (5 t) let the held Execute of task t go on
+                       | (6) Shutdown, held between wg.Wait and close(queue) | (7) let it go on
+                    status 6 = held at the point, 7 = waiting for the executor's lock behind a Shutdown
+                    that is waiting for it; shut status 2 = held at the point
            observed ((settled (status ...) (started ...) (ended ...) alive (shut ...)) ...)  one snapshot per op,
                     taken when every goroutine of the scenario is parked
                     status of an Execute call: 0 parked on the queue send, 1 nil, 2 error, 3 panic,
@@ -24,13 +29,18 @@ Definition nat_of (s : sx) : option nat :=
 Definition nats_of (s : sx) : option (list nat) :=
   match s with SList l => map_opt nat_of l | _ => None end.
 
-Inductive op := OExec | ORelease (t : nat) | OShutdown | OReleaseMany (ts : list nat).
+Inductive op := OExec | ORelease (t : nat) | OShutdown | OReleaseMany (ts : list nat)
+              | OExecHeld | OLetExec (t : nat) | OShutHeld | OLetShut.
 Definition op_of (s : sx) : option op :=
   match s with
   | SList [SInt 0%Z] => Some OExec
   | SList [SInt 1%Z; t] => match nat_of t with Some t => Some (ORelease t) | None => None end
   | SList [SInt 2%Z] => Some OShutdown
   | SList (SInt 3%Z :: ts) => match map_opt nat_of ts with Some ts => Some (OReleaseMany ts) | None => None end
+  | SList [SInt 4%Z] => Some OExecHeld
+  | SList [SInt 5%Z; t] => match nat_of t with Some t => Some (OLetExec t) | None => None end
+  | SList [SInt 6%Z] => Some OShutHeld
+  | SList [SInt 7%Z] => Some OLetShut
   | _ => None
   end.
 Definition kind_of (s : sx) : option (outcome * bool) :=
@@ -70,31 +80,38 @@ Section Drive.
 
   (* the environment: a gated task returns only after its gate was opened; a caller spinning
      on Started makes no progress by itself *)
-  Definition allowed (released : list nat) (s : st) (c : choice) : bool :=
+  (* [heldE]: Execute calls the harness holds between the state check and the send;
+     [heldS]: the Shutdown caller is held between wg.Wait and close(queue) *)
+  Definition allowed (heldE : list nat) (heldS : bool) (released : list nat) (s : st) (c : choice) : bool :=
     match c with
+    | Shut => negb (heldS && match sh s with ShCloseQ => true | _ => false end)
     | Finish j =>
         match nth j (ws s) WExited with
         | WBusy t | WDBusy t => negb (gated t) || mem t released
         | _ => false
         end
-    | Sub t => match subs s t, ph s with SGet, PStarted => false | _, _ => true end
+    | Sub t => match subs s t, ph s with
+               | SGet, PStarted => false
+               | SPark, _ => negb (mem t heldE)
+               | _, _ => true
+               end
     | _ => true
     end.
 
-  Fixpoint first_step (released : list nat) (s : st) (l : list choice) : option st :=
+  Fixpoint first_step (hE : list nat) (hS : bool) (released : list nat) (s : st) (l : list choice) : option st :=
     match l with
     | [] => None
     | c :: r =>
-        if allowed released s c then
-          match step oracle s c with Some s' => Some s' | None => first_step released s r end
-        else first_step released s r
+        if allowed hE hS released s c then
+          match step oracle s c with Some s' => Some s' | None => first_step hE hS released s r end
+        else first_step hE hS released s r
     end.
 
-  Fixpoint settle (fuel : nat) (released : list nat) (s : st) : st :=
+  Fixpoint settle (fuel : nat) (hE : list nat) (hS : bool) (released : list nat) (s : st) : st :=
     match fuel with
     | O => s
-    | S f => match first_step released s (cands s) with
-             | Some s' => settle f released s'
+    | S f => match first_step hE hS released s (cands s) with
+             | Some s' => settle f hE hS released s'
              | None => s
              end
     end.
@@ -103,28 +120,52 @@ Section Drive.
     match x with SRet ROk => 1 | SRet RErr => 2 | SRet RPanic => 3 | _ => 0 end.
 
   (* driver state: model state, opened gates, for every Shutdown op whether it won the CAS *)
-  Record drv := mkdrv { ms : st; rel : list nat; wins : list bool }.
+  (* wins: per Shutdown op 1 = it is the call that changes the state, 0 = its CAS fails at once,
+     2 = its CAS will fail but it first queues for the lock behind the call that is waiting for it *)
+  Record drv := mkdrv { ms : st; rel : list nat; wins : list nat; hE : list nat; hS : bool }.
 
   Definition apply_op (d : drv) (o : op) : drv :=
     let fuel := 12 * (next (ms d) + nw (ms d)) + 40 in
+    let win := phase_eqb (ph (ms d)) PRunning && match sh (ms d) with ShIdle => true | _ => false end in
+    let kind := if win then 1 else if is_locking (sh (ms d)) then 2 else 0 in
+    (* a further Shutdown call while one is in progress does not move the one in progress *)
+    let shut1 := match sh (ms d) with ShIdle => step' oracle (ms d) Shut | _ => ms d end in
     match o with
-    | OExec => mkdrv (settle fuel (rel d) (step' oracle (ms d) Call)) (rel d) (wins d)
-    | ORelease t => mkdrv (settle fuel (t :: rel d) (ms d)) (t :: rel d) (wins d)
-    | OReleaseMany ts => mkdrv (settle fuel (ts ++ rel d) (ms d)) (ts ++ rel d) (wins d)
+    | OExec => mkdrv (settle fuel (hE d) (hS d) (rel d) (step' oracle (ms d) Call)) (rel d) (wins d) (hE d) (hS d)
+    | OExecHeld =>
+        let h := next (ms d) :: hE d in
+        mkdrv (settle fuel h (hS d) (rel d) (step' oracle (ms d) Call)) (rel d) (wins d) h (hS d)
+    | OLetExec t =>
+        let h := filter (fun x => negb (Nat.eqb x t)) (hE d) in
+        mkdrv (settle fuel h (hS d) (rel d) (ms d)) (rel d) (wins d) h (hS d)
+    | ORelease t => mkdrv (settle fuel (hE d) (hS d) (t :: rel d) (ms d)) (t :: rel d) (wins d) (hE d) (hS d)
+    | OReleaseMany ts => mkdrv (settle fuel (hE d) (hS d) (ts ++ rel d) (ms d)) (ts ++ rel d) (wins d) (hE d) (hS d)
     | OShutdown =>
-        let win := phase_eqb (ph (ms d)) PRunning &&
-                   match sh (ms d) with ShIdle => true | _ => false end in
-        mkdrv (settle fuel (rel d) (step' oracle (ms d) Shut)) (rel d) (wins d ++ [win])
+        mkdrv (settle fuel (hE d) (hS d) (rel d) shut1) (rel d) (wins d ++ [kind]) (hE d) (hS d)
+    | OShutHeld =>
+        (* only the call that wins the CAS gets as far as the point *)
+        let h := hS d || win in
+        mkdrv (settle fuel (hE d) h (rel d) shut1) (rel d) (wins d ++ [kind]) (hE d) h
+    | OLetShut => mkdrv (settle fuel (hE d) false (rel d) (ms d)) (rel d) (wins d) (hE d) false
     end.
 
   Definition model_snap (d : drv) : snap :=
     let s := ms d in
     mksnap true
-      (map (fun t => status_of (subs s t)) (seq 0 (next s)))
+      (map (fun t => match subs s t with
+                     | SPark => if mem t (hE d) then 6 else 0
+                     | SCheck => if is_locking (sh s) then 7 else 0
+                     | x => status_of x end) (seq 0 (next s)))
       (ran s ++ busy (ws s))
       (ran s)
       (length (filter (fun w => negb (is_exited w)) (ws s)))
-      (map (fun w : bool => if w then match sh s with ShDone => 1 | _ => 0 end else 1) (wins d)).
+      (map (fun w : nat => match w with
+                           | 1 => match sh s with
+                                  | ShDone => 1
+                                  | ShCloseQ => if hS d then 2 else 0
+                                  | _ => 0 end
+                           | 2 => if is_locking (sh s) then 0 else 1
+                           | _ => 1 end) (wins d)).
 
   (* compare one snapshot: exact order with a single worker, as sets otherwise *)
   Definition cmp_snap (n : nat) (m o : snap) : verdict :=
@@ -169,7 +210,7 @@ Definition p_returns (n c : nat) (b : snap) : bool :=
 (* walk the snapshots.  [acc] = None while no effective Shutdown was issued, else
    (tasks whose Execute had returned nil before the first effective Shutdown op was issued,
     index of that op among the Shutdown ops); [nsh] counts Shutdown ops so far *)
-Definition walk_one (n c : nat) (o : op) (b : snap) (prev : option snap)
+Definition walk_one (n n_order c : nat) (o : op) (b : snap) (prev : option snap)
            (acc : option (list nat * nat)) (seen : bool) : verdict :=
   let before_shutdown := match acc with None => true | Some _ => false end in
   let returned (x : snap) :=
@@ -180,10 +221,12 @@ Definition walk_one (n c : nat) (o : op) (b : snap) (prev : option snap)
  (vjoin (check_that (negb before_shutdown || p_returns n c b) (VPropFail 1))
  (vjoin (check_that (negb before_shutdown || negb (mem 2 (statuses b) || mem 3 (statuses b))) (VPropFail 6))
  (vjoin (check_that (negb (before_shutdown && seen) || mem 4 (statuses b) || Nat.eqb (alive b) n) (VPropFail 4))
- (vjoin (check_that (negb (Nat.eqb n 1) || ascending (started b)) (VPropFail 3))
+ (vjoin (check_that (negb (Nat.eqb n_order 1) || ascending (started b)) (VPropFail 3))
  (vjoin (* Shutdown has returned: everything accepted before it began has run *)
         (check_that (negb (returned b)
-                     || match acc with Some (early, _) => subset early (ended b) | None => true end) (VPropFail 2))
+                     || (match acc with Some (early, _) => subset early (ended b) | None => true end
+                         (* every Execute that returned nil, whenever it did, has had its task run *)
+                         && subset (ok_tasks b) (ended b))) (VPropFail 2))
  (vjoin (* ... nothing is running, all workers have exited *)
         (check_that (negb (returned b) || (Nat.eqb (alive b) 0 && subset (started b) (ended b))) (VPropFail 5))
         (* ... and nothing is started afterwards *)
@@ -192,21 +235,26 @@ Definition walk_one (n c : nat) (o : op) (b : snap) (prev : option snap)
                      | None => true end) (VPropFail 5))
         (* Shutdown returns: the snapshot is quiescent (every goroutine parked), no task is running,
            yet the Shutdown that won has not returned: nothing can ever move again *)
-        (check_that (before_shutdown || returned b || negb (subset (started b) (ended b))) (VPropFail 7))))))))).
+        (check_that (before_shutdown || returned b || negb (subset (started b) (ended b))
+                     || mem 6 (statuses b) || mem 2 (shuts b)   (* the harness itself holds a goroutine *)
+                    ) (VPropFail 7))))))))).
 
-Fixpoint prop_walk (n c : nat) (ops : list op) (obs : list snap) (prev : option snap)
+Fixpoint prop_walk (n n_order c : nat) (ops : list op) (obs : list snap) (prev : option snap)
          (acc : option (list nat * nat)) (nsh : nat) (seen : bool) : verdict :=
   match ops, obs with
   | o :: ops', b :: obs' =>
       if negb (settled b) then VOk else
       let acc' :=
         match acc, o, prev with
-        | None, OShutdown, Some p => if mem 1 (statuses p) then Some (ok_tasks p, nsh) else None
+        | None, (OShutdown | OShutHeld), Some p =>
+            (* the executor is running: some Execute has returned nil, or is past the state check *)
+            if mem 1 (statuses p) || mem 6 (statuses p) || mem 0 (statuses p)
+            then Some (ok_tasks p, nsh) else None
         | _, _, _ => acc
         end in
-      let nsh' := match o with OShutdown => S nsh | _ => nsh end in
-      let seen' := seen || match o with OExec => true | _ => false end in
-      vjoin (walk_one n c o b prev acc' seen') (prop_walk n c ops' obs' (Some b) acc' nsh' seen')
+      let nsh' := match o with OShutdown | OShutHeld => S nsh | _ => nsh end in
+      let seen' := seen || match o with OExec | OExecHeld => true | _ => false end in
+      vjoin (walk_one n n_order c o b prev acc' seen') (prop_walk n n_order c ops' obs' (Some b) acc' nsh' seen')
   | _, _ => VOk
   end.
 
@@ -249,8 +297,11 @@ Definition check (c : sx) : verdict :=
       match nat_of n, nat_of cp, map_opt kind_of ks, map_opt op_of os, map_opt snap_of obs with
       | Some n, Some cp, Some ks, Some os, Some obs =>
           let n := Nat.max 1 n in
-          vjoin (prop_walk n cp os obs None None 0 false)
-                (compare ks n (mkdrv (init n cp) [] []) os obs)
+          (* a held Execute queues its task later than the calls made after it: the order of the
+             ids is then not the submission order (the model comparison still checks the exact order) *)
+          let n_order := if existsb (fun o => match o with OExecHeld => true | _ => false end) os then 0 else n in
+          vjoin (prop_walk n n_order cp os obs None None 0 false)
+                (compare ks n (mkdrv (init n cp) [] [] [] false) os obs)
       | _, _, _, _, _ => VBad
       end
   | SList [SList (SInt 1%Z :: n :: _); SList [a; b; c'; d; SList rest]] =>
